@@ -141,6 +141,10 @@ def main(tier_):
     results = run_pv(all_cases, jobs=12, tag="C02")
     race.outcome_stats(results, stats)
     race.judge(("C02",), all_cases, results, verdicts, stats, samples)
+    # action-level conformance of the real call sequences with Lookup.tla (model drift metric)
+    conf = lookup_conformance(all_cases, results, max_cases=400 if quick else None, rnd=rnd)
+    for d in conf["drift"][:10]:
+        print("MODEL-DRIFT (not an alarm): real trace of %s is not a behaviour of Lookup.tla; first unmatched event #%s/%s: %s" % (d.get("case"), d.get("at_event"), d.get("of"), json.dumps(d.get("first_unmatched"))[:200]))
     wall = time.time() - t0
     rc = v.finish()
     distinct = len({(c["meta"]["tree"], json.dumps(c["meta"]["call"], sort_keys=True), json.dumps(c["meta"]["acts"], sort_keys=True), tuple(c["meta"]["ks"]), json.dumps(c["feat"])) for c in all_cases})
@@ -149,6 +153,7 @@ def main(tier_):
                rule="sweep case = (race tree, lookup call, backend, attacker action(s), boundary index(es)); non-trivial = the attacker's mutation actually took effect (kernel returned 0) during the call",
                exhaustive=bool(base["complete"]) and not quick, tlc_base_complete=base["complete"], tlc_base_violated=base["violated"],
                mechanism_removal_variants=variants, sweep_space=stats["sweep_space"], attack_fired=stats["attack_fired"],
+               lookup_model_conformance=dict(validated=conf["validated"], accepted=conf["accepted"], drift=len(conf["drift"]), drift_samples=conf["drift"][:3], search_states=conf["states"]),
                trace_events=stats["events"], trace_states=stats["trace_states"], kernel_model_mismatches=stats["kmm"], kmm_samples=stats.get("kmm_samples", []),
                outcomes={k: n for k, n in stats.items() if k.startswith("outcome_")}, abnormal=stats["abnormal"], build_s=round(build_s, 1), notes=v.notes)
     write_evidence("C02", tier_, "model_checking", cov, ASSUME, wall, len(v.violations))
